@@ -19,7 +19,6 @@ NA = {
 }
 
 PENDING = {
-    'C07': 'filestore',
     'C16': 'history',
 }
 
@@ -56,6 +55,10 @@ CHECKS = {
                 technique='deterministic storage simulation with complete per-case enumeration of the failure points of load and save (EOF at every byte, OSError at every read/write call incl. torn writes, semantic failures) followed by a process-wide probe; chained call histories',
                 text='For each sampled (content, charset out of 10, direction, seam file=/filename=) the fault-free path is checked - texts survive save+load with that charset and the payload bytes found by an independent SMF walker equal text.encode(charset) - and then EVERY failure point of the call is visited on simulated storage: truncation after each byte of the image, OSError at each read call, OSError with and without a torn partial write at each write call, and semantic failures (invalid data byte, undecodable text, bad key signature, bad header, missing track; float or negative time, real-time message, unencodable text, type 0 with two tracks). After every call, failed or not, a probe encodes and decodes discriminating meta texts elsewhere in the process and requires latin1 behaviour. Chained histories of 2-6 calls with mixed charsets and faults, probed after each call or only at the end, cover leaks that only show later. The failure-point sweep is complete per sampled case; cases are sampled.',
                 note='Texts are restricted to strings the Python codec itself round-trips. Which exception a failed call raises is recorded but not judged (the statement says succeeded or raised).'),
+    'C07': dict(engine='filestore', category='exploration', design='3 / C07',
+                technique='deterministic storage simulation: store-vs-model runs on simulated storage (file= and filename= seams) plus a complete per-image sweep of single-byte at-rest faults (truncation at every offset, every byte overwritten with 6 boundary values) checked as a load-save-load fixed point',
+                text='Three configurations reported separately. roundtrip (fault-free): generated files (types 0/1/2, 0-4 tracks, channel messages with runs of equal status, system common, sysex payloads 0..16384, every known meta type with boundary values, unknown metas, end_of_track missing/repeated/in the middle, deltas at every variable-length-quantity size boundary) are saved to and loaded from simulated storage and compared with an independent normalisation of the model (one trailing end_of_track carrying the trailing delta). unstorable: each real-time type, negative and float times, type 0 with 0 or 2 tracks must make save raise ValueError, and the system-common types must not be refused. stored_faults: for each sampled small image EVERY single-byte at-rest fault is visited plus multi-byte damage; if the damaged image still loads, saving it must either succeed and re-load to the normalised first load, or raise ValueError only for content the statement lists as unstorable.',
+                note='Exploration with a per-image complete stored-byte fault sweep. Text metas use latin1 here (charsets are C17); smpte_offset hours stay within 0..23 and sequencer_specific data is a tuple (representation details belonging to C09). Images that do not load are not judged; byte-level conformance (C08) is not judged - a reader/writer-symmetric deviation is invisible to a round trip.'),
 }
 
 
